@@ -142,7 +142,7 @@ theorem mode_line {s : Srv} {b : Bot} (h : AtSrv s b) {k : Str} {sc : SChan} (hs
     (sc.name :: ('+' :: sc.modes.map (·.1)) :: sc.modes.filterMap (·.2)) (by simp only [Bot.ircCmd, cmdOf_324])
   rw [h.nick] at hfeed
   rw [hfeed]
-  have hcn : b.chanOrNew sc.name = ch := by simp only [Bot.chanOrNew, Bot.chan, hch, Option.getD_some]
+  have hcn : b.chan sc.name = some ch := hch
   simp only [Bot.stateCmd, cmdOf_324, Bot.do324, separateModes_324 hcw.modes, hcn, run324 sc.modes hcw.modes, Bot.setChan]
 
 /-! ### RPL_CREATIONTIME -/
@@ -154,12 +154,14 @@ theorem created_line {s : Srv} {b : Bot} (h : AtSrv s b) (sc : SChan) {ch : Chan
   obtain ⟨hsv, hne⟩ := h.server
   have hfeed := feed_server (b := b) hsv hne "329".toList [sc.name, sc.created] (by simp only [Bot.ircCmd, cmdOf_329])
   rw [h.nick] at hfeed
-  have hcn : b.chanOrNew sc.name = ch := by simp only [Bot.chanOrNew, Bot.chan, hch, Option.getD_some]
+  have hcn : b.chan sc.name = some ch := hch
   simp only [recv_emit]
   rw [hfeed]
   simp only [Bot.stateCmd, cmdOf_329, Bot.do329, hcn, Bot.setChan]
   cases pyInt sc.created with
-  | none => exact ⟨ch, rfl, ⟨rfl, rfl, rfl, rfl, rfl, rfl, rfl⟩⟩
+  | none =>
+    refine ⟨ch, ?_, ⟨rfl, rfl, rfl, rfl, rfl, rfl, rfl⟩⟩
+    simp only [aset_same _ _ _ hch]
   | some n => exact ⟨{ ch with created := n }, rfl, ⟨rfl, rfl, rfl, rfl, rfl, rfl, rfl⟩⟩
 
 /-! ### RPL_BANLIST -/
@@ -204,5 +206,24 @@ theorem foldl_sadd_mem (bans : List Str) (init : List Str) (x : Str) :
       · exact Or.inl (Or.inr h)
       · exact Or.inl (Or.inl rfl)
       · exact Or.inr h
+
+/-- replies about a channel the bot is not on are ignored -/
+theorem late_replies_ignored {s : Srv} {b : Bot} (h : AtSrv s b) (name : Str) (hnone : aget b.channels (lower name) = none)
+    (rest : List Str) :
+    (b.feed ⟨s.cfg.server, "324".toList, s.bot :: name :: rest⟩).1 = b ∧
+    (b.feed ⟨s.cfg.server, "329".toList, s.bot :: name :: rest⟩).1 = b ∧
+    (b.feed ⟨s.cfg.server, "367".toList, s.bot :: name :: rest⟩).1 = b := by
+  obtain ⟨hsv, hne⟩ := h.server
+  have hchan : b.chan name = none := hnone
+  refine ⟨?_, ?_, ?_⟩
+  · have hfeed := feed_server (b := b) hsv hne "324".toList (name :: rest) (by simp only [Bot.ircCmd, cmdOf_324])
+    rw [h.nick] at hfeed
+    rw [hfeed]; simp only [Bot.stateCmd, cmdOf_324, Bot.do324, hchan]
+  · have hfeed := feed_server (b := b) hsv hne "329".toList (name :: rest) (by simp only [Bot.ircCmd, cmdOf_329])
+    rw [h.nick] at hfeed
+    rw [hfeed]; simp only [Bot.stateCmd, cmdOf_329, Bot.do329, hchan]
+  · have hfeed := feed_server (b := b) hsv hne "367".toList (name :: rest) (by simp only [Bot.ircCmd, cmdOf_367])
+    rw [h.nick] at hfeed
+    rw [hfeed]; simp only [Bot.stateCmd, cmdOf_367, Bot.do367, hchan]
 
 end C10
